@@ -41,6 +41,8 @@ class Ob:
     replayable: bool = False        # explicit-style harness: counterexample can be replayed natively
     replay_src: str = ''            # file under /repo/src whose unwoven text the replay includes (informational)
     known_key: str = ''             # stable key used in known-findings.txt
+    canaries: List[str] = field(default_factory=list)   # regexes of woven canaries (outside the harness file) that must be hit
+    twin: str = ''                  # name of an explicit bounded obligation used to find a concrete input when this one fails
 
     @property
     def dfcc(self):
@@ -200,9 +202,12 @@ def build_and_check(ob: Ob, sc: Scratch, want_trace=False) -> Result:
         st = r.get('status', '')
         names.append(nm + ' ' + desc)
         if desc.startswith('CANARY'):
+            cfile = os.path.basename(str((r.get('sourceLocation') or {}).get('file', '')))
+            required = cfile == os.path.basename(ob.harness) or any(re.search(c, desc) for c in ob.canaries)
             if st == 'FAILURE':
-                canary_ok += 1
-            else:
+                if required:
+                    canary_ok += 1
+            elif required:
                 canary_bad.append(desc)
             continue
         res.n_props += 1
@@ -216,7 +221,7 @@ def build_and_check(ob: Ob, sc: Scratch, want_trace=False) -> Result:
     res.canaries = canary_ok
     res.failed = failed
     res.samples = [n for n in names if not n.split(' ', 1)[1].startswith('CANARY')][:3]
-    missing = [e for e in ob.expect if not any(re.search(e, n) for n in names)]
+    missing = [e for e in ob.expect + ob.canaries if not any(re.search(e, n) for n in names)]
     if failed:
         unk = [f for f in failed if f['status'] not in ('FAILURE',)]
         if unk:
